@@ -19,6 +19,7 @@ CONSTANTS MaxLen, ExportLen,
           ConvHows,               \* conversion methods (subset of Hows)
           HandleH,                \* ways of obtaining a second registry object on the same table (subset of HandleHows)
           PickleH,                \* what is pickled to restore a registry object: subset of {"registry", "unit"}
+          ModVias, DefVias,       \* value classes of the argument of modify / define_unit (subsets of Vias / {"num", "ns"})
           InBaseQ, InBaseS        \* data units of in_base (subset of Keys) / "none" | "slim" | "full": see InBaseForms
 
 \* a re-binding with bypass_validation=True is only generated as the LAST call of a history: on today's code it
@@ -31,7 +32,7 @@ InBaseForms == CASE InBaseS = "none" -> {}
                              \cup {<<"m", "mks", "km">>, <<"km", "cgs", "kfoo">>, <<"foo", "mks", "km">>}
 Edits(r) ==
   \/ \E s \in Syms, sc \in (IF regs[r].d = 0 THEN DScales ELSE AddScales), px \in (IF regs[r].d = 0 THEN DPfx ELSE BOOLEAN) : Add(r, s, sc, px)
-  \/ \E k \in Keys, sc \in ModScales : Modify(r, k, sc)
+  \/ \E k \in Keys, via \in ModVias : \E sc \in (IF via = "ns" THEN {NsScale} ELSE ModScales) : Modify(r, k, sc, via)
   \/ \E k \in Keys : Remove(r, k)
 Reads(r) ==
   \/ \E k \in ReadKeys : Contains(r, k)
@@ -46,7 +47,8 @@ Creations ==
   \/ \E src \in RegIds, how \in PickleH : PickleReg(src, how, "km")
   \/ \E src \in RegIds, p \in PickleP : Unpickle(src, p)
   \/ \E src \in RegIds, p \in CopyP, deep \in BOOLEAN : UnitCopy(src, p, deep)
-NsOps(r) == MkUnitSystem(r, "kfoo") \/ MkUnitSystem(r, "km") \/ MkUnitSystem(r, "foo") \/ AddSymbols(r) \/ AddConstants(r)
+NsOps(r) == MkUnitSystem(r, "kfoo", FALSE) \/ MkUnitSystem(r, "km", FALSE) \/ MkUnitSystem(r, "km", TRUE) \/ MkUnitSystem(r, "foo", FALSE)
+            \/ AddSymbols(r) \/ AddConstants(r)
 MixedOps ==
   \/ \E op \in BinF, r1, r2 \in RegIds, p1, p2 \in BinP, w \in WarmSet : BinOp(op, r1, p1, r2, p2, w)
   \/ \E r, src \in RegIds, p \in BinP \cup {"km"}, bv \in BOOLEAN : Rebind(r, src, p, bv)
@@ -54,7 +56,7 @@ MixedOps ==
 
 Next == /\ Len(hist) < MaxLen /\ NoBypassYet
         /\ \/ (Editing /\ \E r \in RegIds : Edits(r) \/ Reads(r))
-           \/ (Editing /\ \E r \in RegIds, sc \in DScales, px \in DPfx : DefineUnit(r, sc, px))
+           \/ (Editing /\ \E r \in RegIds, via \in DefVias, px \in DPfx : \E sc \in (IF via = "ns" THEN {NsScale} ELSE DScales) : DefineUnit(r, sc, px, via))
            \/ Creations
            \/ (Namespaces /\ \E r \in RegIds : NsOps(r))
            \/ (Mixed /\ MixedOps)
@@ -66,7 +68,9 @@ LastKind == IF hist = <<>> THEN <<>> ELSE LET e == hist[Len(hist)] IN
             IF e.op \in {"binop", "rebind", "convert"}
             THEN <<e.op, e.r = 0, e.r2 = 0, e.r = e.r2, IF e.op = "binop" THEN e.fn ELSE IF e.op = "convert" THEN e.how ELSE "",
                    IF e.op = "binop" THEN e.warm ELSE FALSE>>
-            ELSE IF regs[e.r].d = 0 /\ e.op \in {"modify", "remove"} THEN <<e.op, e.r, e.sym>>   \* every refusal of the default table
+            ELSE IF regs[e.r].d = 0 /\ e.op \in {"modify", "remove"} THEN <<e.op, e.r, e.sym, IF e.op = "modify" THEN e.via ELSE "">>   \* every refusal of the default table
+            ELSE IF e.op \in {"modify", "define"} THEN <<e.op, e.r, e.via>>     \* every value class of the argument
+            ELSE IF e.op = "usys" THEN <<e.op, e.r, e.obj>>
             ELSE IF e.op = "inbase" THEN <<e.op, e.r, e.sys, e.str2>>
             ELSE <<e.op, e.r>>
 \* NoBypassYet is a guard on the hidden history, so it must be visible too (otherwise a dead-end representative
@@ -88,6 +92,11 @@ ModelFrame == LET e == hist'[Len(hist')]
 ExportState == PrintT(ToJson([tag |-> "HIST", h |-> hist]))
 \* state cover restricted to histories that end in a mixed operation
 ExportMixedState == LastIsMixed => PrintT(ToJson([tag |-> "HIST", h |-> hist]))
+\* state cover restricted to histories in which an argument was an OBJECT somebody else holds (value classes other than
+\* "num" of modify / define_unit, the exported Unit object as base unit of a unit system)
+HasObjArg == \E i \in DOMAIN hist : \/ (hist[i].op \in {"modify", "define"} /\ hist[i].via # "num")
+                                     \/ (hist[i].op = "usys" /\ hist[i].obj)
+ExportArgState == HasObjArg => PrintT(ToJson([tag |-> "HIST", h |-> hist]))
 \* transition cover: one witness history per explored transition
 ExportTrans == PrintT(ToJson([tag |-> "HIST", h |-> hist']))
 \* all histories of terminal length (used with -simulate)
